@@ -500,6 +500,10 @@ impl ContinuityStore {
                 .try_read_last_seq(continuity_id)
                 .ok()
                 .flatten();
+            #[cfg(rip_verif)]
+            rip_kernel::verif::point("compile.head.read", || {
+                serde_json::json!({"stream": continuity_id, "head": head_before_scan})
+            });
             match self.stream_cache.scan_tail_messages_runs_v1(
                 continuity_id,
                 MAX_TAIL_EVENTS,
